@@ -1,34 +1,34 @@
 (* C04 — pinned laws of the reference semantics for errors, handlers and finally. *)
 From KV.core Require Import Ast Sem SemProofs.
 
-Theorem finally_provides_value : forall f cenv e s body fb v e1 s1 w e2 s2,
-  eval f cenv e s body = (RVal v, e1, s1) ->
-  eval f cenv e1 s1 fb = (RVal w, e2, s2) ->
-  eval (S f) cenv e s (ETry body [] (Some fb)) = (RVal w, e2, s2).
+Theorem finally_provides_value : forall f cenv yt e s body fb v e1 s1 w e2 s2,
+  eval f cenv yt e s body = (RVal v, e1, s1) ->
+  eval f cenv yt e1 s1 fb = (RVal w, e2, s2) ->
+  eval (S f) cenv yt e s (ETry body [] (Some fb)) = (RVal w, e2, s2).
 Proof. exact SemProofs.finally_provides_value. Qed.
-Theorem finally_runs_on_uncaught_throw : forall f cenv e s body fb v e1 s1 w e2 s2,
-  eval f cenv e s body = (RThrow v, e1, s1) ->
-  eval f cenv e1 s1 fb = (RVal w, e2, s2) ->
-  eval (S f) cenv e s (ETry body [] (Some fb)) = (RThrow v, e2, s2).
+Theorem finally_runs_on_uncaught_throw : forall f cenv yt e s body fb v e1 s1 w e2 s2,
+  eval f cenv yt e s body = (RThrow v, e1, s1) ->
+  eval f cenv yt e1 s1 fb = (RVal w, e2, s2) ->
+  eval (S f) cenv yt e s (ETry body [] (Some fb)) = (RThrow v, e2, s2).
 Proof. exact SemProofs.finally_runs_on_uncaught_throw. Qed.
-Theorem finally_runs_on_return : forall f cenv e s body cs fb v e1 s1 w e2 s2,
-  eval f cenv e s body = (RRet v, e1, s1) ->
-  eval f cenv e1 s1 fb = (RVal w, e2, s2) ->
-  eval (S f) cenv e s (ETry body cs (Some fb)) = (RRet v, e2, s2).
+Theorem finally_runs_on_return : forall f cenv yt e s body cs fb v e1 s1 w e2 s2,
+  eval f cenv yt e s body = (RRet v, e1, s1) ->
+  eval f cenv yt e1 s1 fb = (RVal w, e2, s2) ->
+  eval (S f) cenv yt e s (ETry body cs (Some fb)) = (RRet v, e2, s2).
 Proof. exact SemProofs.finally_runs_on_return. Qed.
-Theorem catch_receives_thrown_value : forall f cenv e s body y cb v e1 s1,
-  eval f cenv e s body = (RThrow v, e1, s1) ->
-  eval (S f) cenv e s (ETry body [(Some y, None, cb)] None) = eval f cenv (update y v e1) s1 cb.
+Theorem catch_receives_thrown_value : forall f cenv yt e s body y cb v e1 s1,
+  eval f cenv yt e s body = (RThrow v, e1, s1) ->
+  eval (S f) cenv yt e s (ETry body [(Some y, None, cb)] None) = eval f cenv yt (update y v e1) s1 cb.
 Proof. exact SemProofs.catch_receives_thrown_value. Qed.
-Theorem typed_catch_falls_through : forall f cenv e s body h cb1 cb2 v e1 s1,
-  eval f cenv e s body = (RThrow v, e1, s1) -> hint_ok h v = false ->
-  eval (S f) cenv e s (ETry body [(None, Some h, cb1); (None, None, cb2)] None) = eval f cenv e1 s1 cb2.
+Theorem typed_catch_falls_through : forall f cenv yt e s body h cb1 cb2 v e1 s1,
+  eval f cenv yt e s body = (RThrow v, e1, s1) -> hint_ok h v = false ->
+  eval (S f) cenv yt e s (ETry body [(None, Some h, cb1); (None, None, cb2)] None) = eval f cenv yt e1 s1 cb2.
 Proof. exact SemProofs.typed_catch_falls_through. Qed.
-Theorem error_in_catch_still_runs_finally : forall f cenv e s body cb fb v e1 s1 v2 e2 s2 w e3 s3,
-  eval f cenv e s body = (RThrow v, e1, s1) ->
-  eval f cenv e1 s1 cb = (RThrow v2, e2, s2) ->
-  eval f cenv e2 s2 fb = (RVal w, e3, s3) ->
-  eval (S f) cenv e s (ETry body [(None, None, cb)] (Some fb)) = (RThrow v2, e3, s3).
+Theorem error_in_catch_still_runs_finally : forall f cenv yt e s body cb fb v e1 s1 v2 e2 s2 w e3 s3,
+  eval f cenv yt e s body = (RThrow v, e1, s1) ->
+  eval f cenv yt e1 s1 cb = (RThrow v2, e2, s2) ->
+  eval f cenv yt e2 s2 fb = (RVal w, e3, s3) ->
+  eval (S f) cenv yt e s (ETry body [(None, None, cb)] (Some fb)) = (RThrow v2, e3, s3).
 Proof. exact SemProofs.error_in_catch_still_runs_finally. Qed.
 
 Print Assumptions finally_provides_value.
